@@ -639,6 +639,11 @@ impl<'w> Ctx<'w> {
                 let f = if name == "to_be_bytes" { "beBytes" } else { "leBytes" };
                 Ok(E { s: format!("({} {} {})", f, w / 8, recv.s), ty: Ty::Bytes, eff })
             }
+            (Ty::U(_), "into") => {
+                // lossless widening `u32 -> u64`: the target width comes from the context
+                let iv = self.new_ivar();
+                Ok(E { s: recv.s, ty: iv, eff })
+            }
             (Ty::U(_), "try_into") => {
                 // `x.try_into().unwrap()` is resolved by the annotated type of the enclosing let
                 Ok(E { s: recv.s, ty: Ty::Named("TryInto".into()), eff })
